@@ -4,6 +4,8 @@ import c01
 MANIFEST = {
     "text": "Actor level: C02_kernel_conservation — for every role table, run and message serial of the kernel model, sends = handled + "
             "dead letters + still pending (nothing invented, nothing lost, across failure, restart, suspension, termination, address reuse), "
+            "C02_kernel_exactly_once_per_receiver (the same flow equation per serial AND receiver address: a message sent once to t is at any time "
+            "exactly one of pending / handled once / dead-lettered once; broadcast copies accounted per child), "
             "C02_send_total (sending never blocks/crashes), C02_kernel_mailbox_order_step/_run (mailbox discipline from any state: a step only "
             "takes the head of an actor's in-flight+queued user messages — when that actor runs it — and appends at the tail; over a run "
             "seq' = skipn k seq ++ app, so queued messages keep their order across failure, suspension, restart); kernel tied to the real ActorSystem by lockstep replay with exactly-once / "
@@ -11,7 +13,7 @@ MANIFEST = {
             "resumer, suspender and runner has finished, the system queue is empty and so is the user queue unless suspended: no lost "
             "wake-up) hold in every reachable state of the mailbox machine for any number of threads; tied to both mailbox files by "
             "per-step replay of instrumented schedules (same tie as C01), with monitors for stranded, lost, duplicated and reordered messages.",
-    "note": "Uniqueness of a send per (serial, receiver) is checked per run, not proved. Liveness is the safety statement "
+    "note": "That a script never reuses a serial for the same receiver (freshness of the harness's serial counter) is checked per run, not proved. Liveness is the safety statement "
             "'quiescent => empty' plus assumed scheduler fairness. Same trusted base as C01.",
     "technique": "Coq proof (counter + poised-thread invariants, no-lost-wake-up) + per-step schedule replay of the instrumented source in Coq",
 }
